@@ -271,8 +271,9 @@ func c08(c *Ctx) {
 	c.Rule("C08.R3", "histogram structure: counts values <= bound; total under +Inf; nothing for limit 0; at most `limit` finite buckets; unparsable bounds skipped; buckets come from the gsd_histogram tag split on '_'", 8, func(r *Rule) {
 		lh := w.Func(P, "latencyHistogram")
 		eh := w.Func(P, "emptyHistogram")
-		rt := w.Func(P, "retrieveThresholds")
-		mp := w.Func(P, "mapToThresholds")
+		// (the two threshold helpers may have been written into emptyHistogram, the end of their only call chain)
+		rt, _ := w.FuncOrHost(P, "retrieveThresholds")
+		mp, _ := w.FuncOrHost(P, "mapToThresholds")
 		if lh == nil || eh == nil || rt == nil || mp == nil {
 			r.Unresolved("latencyHistogram / emptyHistogram / retrieveThresholds / mapToThresholds")
 			return
@@ -377,6 +378,39 @@ func c08(c *Ctx) {
 						okOrder = true
 					}
 				}
+				// the parsing written in place: what is truncated is the slice the parsed bounds were appended to
+				// (each append adds a ParseFloat result, so unparsable items were skipped before the limit applies)
+				seenV := map[ssa.Value]bool{}
+				var parsedOnly func(v ssa.Value, d int) (bool, bool)
+				parsedOnly = func(v ssa.Value, d int) (all, any bool) {
+					if d > 8 || seenV[v] {
+						return true, false
+					}
+					seenV[v] = true
+					switch x := v.(type) {
+					case *ssa.Phi:
+						all = true
+						for _, e := range x.Edges {
+							a2, n2 := parsedOnly(e, d+1)
+							all = all && a2
+							any = any || n2
+						}
+						return all, any
+					case *ssa.Const:
+						return x.Value == nil, false
+					case *ssa.Call:
+						if isCall(x, "builtin append") {
+							els := varargElems(x.Call.Args[1])
+							okEl := len(els) == 1 && strings.Contains(exprString(els[0], 0), "strconv.ParseFloat")
+							a2, _ := parsedOnly(x.Call.Args[0], d+1)
+							return a2 && okEl, okEl
+						}
+					}
+					return false, false
+				}
+				if all, any := parsedOnly(sl.X, 0); all && any {
+					okOrder = true
+				}
 			}
 		})
 		r.Check("retrieveThresholds:truncates-parsed-bounds", okOrder, rt.Pos(), "the limit is applied to mapToThresholds(strings.Split(...)), i.e. after unparsable items were skipped (truncating the raw items lets a malformed item use up a bucket slot)")
@@ -389,6 +423,21 @@ func c08(c *Ctx) {
 				}
 			}
 		})
+		if !okRet && rt == eh {
+			// written into emptyHistogram: the truncated slice is the one the buckets are made from
+			eachInstr(rt, func(in ssa.Instruction) {
+				if sl, ok := in.(*ssa.Slice); ok && sl.High != nil && strings.Contains(exprString(sl.High, 0), "min(") {
+					for _, ref := range referrers(sl) {
+						switch ref.(type) {
+						case *ssa.Range, *ssa.IndexAddr, *ssa.Phi:
+							okRet = true
+						case *ssa.Call:
+							okRet = true
+						}
+					}
+				}
+			})
+		}
 		r.Check("retrieveThresholds:returns-truncated", okRet, rt.Pos(), "the truncated slice is what is returned")
 		mn := w.Func(P, "min")
 		if mn != nil {
